@@ -8,6 +8,7 @@ empty content); the bound is the parsed number of the whole trimmed remainder; t
 data carries the count, the operator's text and the bound.
 Not decided: what `str::lines` does with exotic line endings, integer parsing.
 """
+import os
 import re
 
 from engine.cfg import cfg_of
@@ -158,6 +159,8 @@ def check_ops_model(ctx, out, rule="C09.ops", only_malformed=False):
     h, lblocks, drivers = LMo.block_loop(ctx, vb)
     vsites = LMo.violation_sites(ctx, vb)
     if h is None or not drivers or not vsites:
+        if os.environ.get("BW_DEBUG_MODEL"):
+            print("C09 model: anchors", h, drivers, vsites)
         return None
     std = CW.std_hooks()
     lm = LM.hooks()
@@ -248,10 +251,14 @@ def check_ops_model(ctx, out, rule="C09.ops", only_malformed=False):
         try:
             w.explore(h, {}, stop)
         except CW.Limit:
+            if os.environ.get("BW_DEBUG_MODEL"):
+                print("C09 model: state limit on", expr, actual)
             return None
         # the model is exact only if the walk was deterministic: one outcome per case (an `error` outcome
         # besides is the severity / serialisation error path of building a violation)
         if len(outcomes - {"error"}) > 1 or (op is not None and not outcomes):
+            if os.environ.get("BW_DEBUG_MODEL"):
+                print("C09 model: undecided on", repr(expr), actual, "outcomes", outcomes, "seen", seen)
             return None
         if op is None:
             if "accepted" in seen or "violation" in seen or "error" not in seen:
@@ -433,11 +440,16 @@ def run(ctx, out, tier):
             cmp_blocks = {sw_bb} | {c[3] for c in cmp_tab.values() if isinstance(c[3], int)}
             r = cfg.reach(some, avoid=cmp_blocks | eb | (set(range(cfg.n)) - set(lblocks) - {h}))
             if h in r:
-                out.viol("C09.noskip", "C09.noskip|skip", ctx.where(vb, gt["span"]),
+                o2.viol("C09.noskip", "C09.noskip|skip", ctx.where(vb, gt["span"]),
                          "a block carrying `line-count` can go on to the next block without its count being compared with the bound (e.g. an early `continue` for empty content): an empty block counts zero lines and must still be reported for `>=1`, `==2`, `>0`")
             else:
                 n_ns += 1
-    out.inst("C09.noskip", n_ns, 1, ["attribute present -> comparison (or error) before the next block"])
+    if decided is not None:
+        # the model's empty-block cases (`>=1`, `>0` on a block without content must be reported; `<1`, `==0`
+        # must not) decide this clause
+        out.inst("C09.noskip", 1, 1, ["small model: an empty block with the attribute is compared as zero lines"])
+    else:
+        out.inst("C09.noskip", n_ns, 1, ["attribute present -> comparison (or error) before the next block"])
 
     # ---------------------------------------------------------------- C09.count
     # (decided by the small model when the count was computed there from the modelled content lines -
@@ -527,30 +539,61 @@ def run(ctx, out, tier):
     out.inst("C09.bound", n_b, 1, ["expected := rest.trim().parse::<usize>()"])
 
     # ---------------------------------------------------------------- C09.data
-    n_d = 0
-    cvs = [(bi, t) for bi, t in vb.calls() if ctx.facts.body(t.get("res") or "") is not None
-           and "Violation" in ctx.facts.body(t["res"]).local_ty(0) and bi in cfg.reachable]
-    for bi, t in cvs:
-        cv = ctx.facts.body(t["res"])
-        for bj, j, s in cv.assigns():
+    # decided where the payload is built inside the diagnostic constructor (against the call site's
+    # arguments) or, failing that, on the validator with the constructor inlined - wherever the payload
+    # `{actual, op, expected}` is written then
+    def data_in_constructor(out):
+        n_d = 0
+        cvs = [(bi, t) for bi, t in vb.calls() if ctx.facts.body(t.get("res") or "") is not None
+               and "Violation" in ctx.facts.body(t["res"]).local_ty(0) and bi in cfg.reachable]
+        for bi, t in cvs:
+            cv = ctx.facts.body(t["res"])
+            for bj, j, s in cv.assigns():
+                rv = s["rv"]
+                if rv["k"] == "agg" and rv.get("agg") == "adt" and set(rv.get("fields") or []) >= {"actual", "expected"}:
+                    for fname, op in zip(rv["fields"], rv["ops"]):
+                        labs = ctx.prov.read_operand(cv, op)
+                        params = sorted({l[1] for l in labs if l[0] == "param"})
+                        site = set()
+                        for pi in params:
+                            if pi - 1 < len(t["args"]):
+                                site |= ctx.prov.read_operand(vb, t["args"][pi - 1])
+                        sa = (ctx.__dict__.get("_c09_site_args") or {}).get(("<3", 4)) if decided is not None else None
+                        if sa is not None and fname in ("actual", "expected") and len(params) == 1 and params[0] - 1 < len(sa):
+                            # small model, case `<3` with 4 lines: the argument this field is built from carries 4 / 3
+                            got = sa[params[0] - 1]
+                            good = got == ("const", 4 if fname == "actual" else 3)
+                        elif fname == "actual":
+                            good = P.has_call(site, r"Iterator>?::count$") and not P.has_call(site, re.escape(pf.id) + "$")
+                        elif fname == "expected":
+                            good = P.has_call(site, re.escape(pf.id) + "$") and not P.has_call(site, r"Iterator>?::count$")
+                        elif fname == "op":
+                            good = pbody is not None and P.has_call(labs, re.escape(pbody.id) + "$")
+                        else:
+                            continue
+                        if good:
+                            n_d += 1
+                        else:
+                            out.viol("C09.data", "C09.data|%s" % fname, ctx.where(cv, s["span"]),
+                                     "diagnostic field `%s` derives from [%s] at the call site, not from the %s"
+                                     % (fname, util.origins_text(site or labs, 5), {"actual": "counted lines", "expected": "parsed bound", "op": "operator's text"}[fname]))
+        out.inst("C09.data", n_d, 3, ["LineCountViolation{actual<-count, op<-as_str(op), expected<-parsed bound}"])
+
+
+    def data_inlined(out):
+        raw = ctx.validate_body(name)
+        keep = {x.id for x in (pf, pbody) if x is not None}
+        v = ctx.inl(raw, skip=lambda cb: cb.id in keep, tag="c09data") if raw is not None else None
+        n_d = 0
+        for bj, j, s in (v.assigns() if v is not None else []):
             rv = s["rv"]
-            if rv["k"] == "agg" and rv.get("agg") == "adt" and set(rv.get("fields") or []) >= {"actual", "expected"}:
+            if rv["k"] == "agg" and rv.get("agg") == "adt" and set(rv.get("fields") or []) >= {"actual", "expected"} and bj in cfg_of(v).reachable:
                 for fname, op in zip(rv["fields"], rv["ops"]):
-                    labs = ctx.prov.read_operand(cv, op)
-                    params = sorted({l[1] for l in labs if l[0] == "param"})
-                    site = set()
-                    for pi in params:
-                        if pi - 1 < len(t["args"]):
-                            site |= ctx.prov.read_operand(vb, t["args"][pi - 1])
-                    sa = (ctx.__dict__.get("_c09_site_args") or {}).get(("<3", 4)) if decided is not None else None
-                    if sa is not None and fname in ("actual", "expected") and len(params) == 1 and params[0] - 1 < len(sa):
-                        # small model, case `<3` with 4 lines: the argument this field is built from carries 4 / 3
-                        got = sa[params[0] - 1]
-                        good = got == ("const", 4 if fname == "actual" else 3)
-                    elif fname == "actual":
-                        good = P.has_call(site, r"Iterator>?::count$") and not P.has_call(site, re.escape(pf.id) + "$")
+                    labs = ctx.prov.read_operand(v, op)
+                    if fname == "actual":
+                        good = (P.has_call(labs, r"Iterator>?::count$") or P.has_const(labs, "0")) and not P.has_call(labs, re.escape(pf.id) + "$")
                     elif fname == "expected":
-                        good = P.has_call(site, re.escape(pf.id) + "$") and not P.has_call(site, r"Iterator>?::count$")
+                        good = P.has_call(labs, re.escape(pf.id) + "$") and not P.has_call(labs, r"Iterator>?::count$")
                     elif fname == "op":
                         good = pbody is not None and P.has_call(labs, re.escape(pbody.id) + "$")
                     else:
@@ -558,10 +601,12 @@ def run(ctx, out, tier):
                     if good:
                         n_d += 1
                     else:
-                        out.viol("C09.data", "C09.data|%s" % fname, ctx.where(cv, s["span"]),
-                                 "diagnostic field `%s` derives from [%s] at the call site, not from the %s"
-                                 % (fname, util.origins_text(site or labs, 5), {"actual": "counted lines", "expected": "parsed bound", "op": "operator's text"}[fname]))
-    out.inst("C09.data", n_d, 3, ["LineCountViolation{actual<-count, op<-as_str(op), expected<-parsed bound}"])
+                        out.viol("C09.data", "C09.data|%s" % fname, ctx.where(v, s["span"]),
+                                 "diagnostic field `%s` derives from [%s], not from the %s"
+                                 % (fname, util.origins_text(labs, 5), {"actual": "counted lines", "expected": "parsed bound", "op": "operator's text"}[fname]))
+        out.inst("C09.data", n_d, 3, ["LineCountViolation{actual<-count, op<-as_str(op), expected<-parsed bound} (constructor inlined)"])
+    from engine.core import on_any_view
+    on_any_view(out, [data_in_constructor, data_inlined], lambda fn, o: fn(o))
 
     # ---------------------------------------------------------------- shared
     shared.sh_err(ctx, out, ctx.validator_bodies(name), rule="SH.err", floor=8)
